@@ -237,8 +237,14 @@ class Contract:
         # sylvia's dispatch arm for an interface has no error conversion unless the interface is
         # bridged with `: custom(msg)`: the interface's Error must be the contract's error type
         for u in self.uses:
-            if not u.custom_msg:
-                u.err = err
+            if custom_chain:
+                # an interface written for the empty custom types has to be bridged
+                u.custom_msg = "ExecC" not in u.iface.assoc
+                u.custom_query = "QueryC" not in u.iface.assoc
+            # the dispatch arm converts the interface's error only in the `: custom(msg)` bridge of
+            # exec / sudo (`?`), never for queries: everywhere else the types have to be equal
+            # (even an interface without queries has a query arm in the wrapper, so in practice never)
+            u.err = err
         self.custom_chain = custom_chain
         self.generic = generic  # None or concrete type substituted for T
         self.overrides = list(overrides)
@@ -1658,7 +1664,63 @@ def family_f2(rng):
     return [], cs
 
 
-FAMILIES = {"f1": family_f1, "f2": family_f2, "f3": family_f3}
+def family_f5(rng):
+    """custom chain: interfaces written for the empty custom types bridged into a contract on a
+    chain with custom message / query types, next to native ones"""
+    alpha = Iface(
+        "alphac",
+        [
+            Handler("exec", "alpha_exec", [Arg("x", "u64")]),
+            Handler("query", "alpha_query", [Arg("who", "String")], ret="QResp"),
+            Handler("sudo", "alpha_sudo", [Arg("n", "u32")]),
+        ],
+    )
+    explicit = Iface(
+        "explicitc",
+        [
+            Handler("exec", "explicit_exec", [Arg("memo", "Option<String>")]),
+            Handler("sudo", "explicit_sudo"),
+            Handler("query", "explicit_query", ret="u64", failarg=True),
+        ],
+        custom=("Empty", "Empty"),
+    )
+    beta = Iface(
+        "betac",
+        [
+            Handler("exec", "beta_exec", [Arg("coins", "Vec<Coin>")]),
+            Handler("query", "beta_q", [Arg("a", "i32")], ret="String", failarg=True),
+            Handler("sudo", "beta_sudo"),
+        ],
+        assoc=["ExecC", "QueryC"],
+    )
+    kq = Iface(
+        "kqc",
+        [Handler("exec", "kq_exec", [Arg("n", "u32")]), Handler("sudo", "kq_sudo"), Handler("query", "kq_query", ret="bool")],
+        assoc=["QueryC"],
+    )
+    km = Iface(
+        "kmc",
+        [Handler("exec", "km_exec", [Arg("flag", "bool")]), Handler("sudo", "km_sudo"), Handler("query", "km_query", ret="String")],
+        assoc=["ExecC"],
+    )
+    onlyx = Iface("onlyxc", [Handler("exec", "only_exec", [Arg("n", "u8")]), Handler("sudo", "only_sudo")])
+    eps = Iface("epsc", [Handler("query", "eps_one", ret="bool"), Handler("query", "eps_two", [Arg("list", "Vec<u32>")], ret="Vec<u32>", failarg=True)])
+    RAW = dict(payload_raw=True, payload=[Arg("payload", "Binary")])
+
+    def alw():
+        return [Handler("reply", "alw", reply=Reply([], "always", **RAW))]
+
+    cs = []
+    T = ("custom", "regular")
+    cs.append(Contract("ca", "f5", std_handlers(rng) + alw(), uses=[Use(alpha), Use(beta), Use(onlyx, err="std")], err="own", custom_chain=True, replies=True, tags=T))
+    cs.append(Contract("cb", "f5", std_handlers(rng) + alw(), uses=[Use(kq, err="own"), Use(km), Use(eps)], err="std", custom_chain=True, replies=True, tags=T))
+    cs.append(Contract("cc", "f5", std_handlers(rng, migrate=False), uses=[Use(alpha), Use(explicit), Use(onlyx, err="std")], err="own", custom_chain=True, tags=T))
+    cs.append(Contract("cd", "f5", std_handlers(rng) + alw(), err="own", custom_chain=True, replies=True, tags=T))
+    cs.append(Contract("ce", "f5", std_handlers(rng, sudo=False) + alw(), uses=[Use(explicit, err="own"), Use(kq, err="std"), Use(beta)], err="std", custom_chain=True, replies=True, tags=T))
+    return [alpha, explicit, beta, kq, km, eps, onlyx], cs
+
+
+FAMILIES = {"f1": family_f1, "f2": family_f2, "f3": family_f3, "f5": family_f5}
 
 
 def emit_family(name, rng):
